@@ -6,11 +6,13 @@ package main
 
 import (
 	"fmt"
+	"io/fs"
 	"math/rand"
 	"net/http"
 	"net/http/httptest"
 	"strconv"
 	"strings"
+	"time"
 
 	"github.com/labstack/echo/v4"
 )
@@ -29,6 +31,9 @@ type c04Op struct {
 	Hid    int    `json:"hid,omitempty"`
 	Fails  bool   `json:"fails,omitempty"`
 	Mws    []int  `json:"mws,omitempty"`
+	// add: which registration helper is used ("" Add, "verb" GET/POST/..., "match" Match with one method,
+	// "filefs" FileFS, "staticfs" StaticFS).  All of them must scope the route exactly like Add does.
+	Via string `json:"via,omitempty"`
 }
 
 type c04Case struct {
@@ -173,11 +178,7 @@ func c04Run(ci any) Result {
 					return ctx.NoContent(http.StatusOK)
 				}
 				routeGroup[hid] = o.G
-				if o.G < 0 {
-					e.Add(o.Method, o.Path, h, mws(o.Mws)...)
-				} else {
-					groups[o.G].Add(o.Method, o.Path, h, mws(o.Mws)...)
-				}
+				c04Register(e, groups, o, h, mws(o.Mws))
 			}
 		}
 	}()
@@ -188,6 +189,7 @@ func c04Run(ci any) Result {
 		return res
 	}
 	status := 0
+	fileBody := ""
 	func() {
 		defer func() {
 			if r := recover(); r != nil {
@@ -197,6 +199,9 @@ func c04Run(ci any) Result {
 		rec := httptest.NewRecorder()
 		e.ServeHTTP(rec, rNewRequest(c.Req))
 		status = rec.Code
+		if status == http.StatusOK {
+			fileBody = rec.Body.String()
+		}
 	}()
 	if panicked != "" {
 		res.Obs = "P"
@@ -209,6 +214,18 @@ func c04Run(ci any) Result {
 		if t[0] == 'H' {
 			hasH = true
 		}
+	}
+	if !hasH && strings.HasPrefix(fileBody, "FILE") {
+		// a file handler of the framework answered (FileFS / StaticFS route): it stands for handler <hid>
+		at := len(trace)
+		for i, t := range trace {
+			if t[0] == 'O' {
+				at = i
+				break
+			}
+		}
+		trace = append(trace[:at:at], append([]string{"H" + fileBody[4:]}, trace[at:]...)...)
+		hasH = true
 	}
 	if !hasH {
 		at := len(trace)
@@ -401,6 +418,69 @@ func c04Run(ci any) Result {
 	return res
 }
 
+// c04FS answers every name with a small regular file whose content names the handler id.
+type c04FS struct{ hid int }
+
+type c04File struct {
+	*strings.Reader
+	name string
+	size int64
+}
+
+func (f c04FS) Open(name string) (fs.File, error) {
+	body := "FILE" + strconv.Itoa(f.hid)
+	return &c04File{strings.NewReader(body), "f.txt", int64(len(body))}, nil
+}
+func (f *c04File) Stat() (fs.FileInfo, error) { return f, nil }
+func (f *c04File) Close() error               { return nil }
+func (f *c04File) Name() string               { return f.name }
+func (f *c04File) Size() int64                { return f.size }
+func (f *c04File) Mode() fs.FileMode          { return 0o444 }
+func (f *c04File) ModTime() time.Time         { return time.Time{} }
+func (f *c04File) IsDir() bool                { return false }
+func (f *c04File) Sys() any                   { return nil }
+
+func c04Register(e *echo.Echo, groups []*echo.Group, o c04Op, h echo.HandlerFunc, m []echo.MiddlewareFunc) {
+	type registrar interface {
+		Add(method, path string, handler echo.HandlerFunc, middleware ...echo.MiddlewareFunc) *echo.Route
+		GET(path string, h echo.HandlerFunc, m ...echo.MiddlewareFunc) *echo.Route
+		POST(path string, h echo.HandlerFunc, m ...echo.MiddlewareFunc) *echo.Route
+		PUT(path string, h echo.HandlerFunc, m ...echo.MiddlewareFunc) *echo.Route
+		Match(methods []string, path string, handler echo.HandlerFunc, middleware ...echo.MiddlewareFunc) []*echo.Route
+		FileFS(path, file string, filesystem fs.FS, m ...echo.MiddlewareFunc) *echo.Route
+	}
+	var r registrar = e
+	if o.G >= 0 {
+		r = groups[o.G]
+	}
+	switch o.Via {
+	case "verb":
+		switch o.Method {
+		case "GET":
+			r.GET(o.Path, h, m...)
+		case "POST":
+			r.POST(o.Path, h, m...)
+		case "PUT":
+			r.PUT(o.Path, h, m...)
+		default:
+			r.Add(o.Method, o.Path, h, m...)
+		}
+	case "match":
+		r.Match([]string{o.Method}, o.Path, h, m...)
+	case "filefs":
+		r.FileFS(o.Path, "f.txt", c04FS{o.Hid}, m...)
+	case "staticfs":
+		pre := strings.TrimSuffix(o.Path, "*")
+		if o.G >= 0 {
+			groups[o.G].StaticFS(pre, c04FS{o.Hid})
+		} else {
+			e.StaticFS(pre, c04FS{o.Hid})
+		}
+	default:
+		r.Add(o.Method, o.Path, h, m...)
+	}
+}
+
 func strconvItoa(i int) string { return strconv.Itoa(i) }
 
 func minInt(a, b int) int {
@@ -542,7 +622,20 @@ func c04Gen(r *rand.Rand, tier string) []any {
 					path = "/"
 				}
 				m := []string{"GET", "GET", "POST", "PUT"}[r.Intn(4)]
-				ops = append(ops, c04Op{Kind: "add", G: g, Method: m, Path: path, Hid: nextHid, Fails: r.Intn(4) == 0, Mws: newIDs(2)})
+				ao := c04Op{Kind: "add", G: g, Method: m, Path: path, Hid: nextHid, Fails: r.Intn(4) == 0, Mws: newIDs(2)}
+				switch r.Intn(8) {
+				case 0:
+					ao.Via = "verb"
+				case 1:
+					ao.Via = "match"
+				case 2:
+					ao.Via, ao.Method, ao.Fails = "filefs", "GET", false
+				case 3:
+					if strings.HasSuffix(path, "*") {
+						ao.Via, ao.Method, ao.Fails, ao.Mws = "staticfs", "GET", false, nil
+					}
+				}
+				ops = append(ops, ao)
 				nextHid++
 				full := path
 				if g >= 0 {
